@@ -135,6 +135,7 @@ def run(module, cfg=None, wd=None, env=None, workers=1, simulate=None, depth=Non
 # M3 / M4: batch validation.  `records` is a list of JSON-able records; the Trace module reads
 # them with JsonDeserialize(IOEnv.TRACE_FILE) and prints one <<"VERDICT", i, "..">> per record.
 
+_DRIFT = re.compile(r'<<\s*"DRIFT",\s*(\d+),\s*"([^"]*)"\s*>>', re.S)          # drift notes a trace spec prints beside its verdicts
 _VERDICT = re.compile(r'<<\s*"VERDICT",\s*(\d+),\s*"([^"]*)"\s*>>', re.S)   # TLC wraps long tuples over lines
 
 
@@ -173,6 +174,10 @@ def judge(module, records, cfg=None, nproc=None, tag="judge", timeout=3600, extr
                         # several lines per record happen only for searching trace specs
                         # (linearisation): one accepting path is enough
                         verdicts[base + i] = re.sub(r"\s+", " ", m.group(2))
+                for m in _DRIFT.finditer(r.out):
+                    what = re.sub(r"^step \d+ ", "", re.sub(r"\s+", " ", m.group(2)))
+                    d = stats.setdefault("drift", {})
+                    d.setdefault(what, [0, base + int(m.group(1)) - 1])[0] += 1
                 stats["states"] += r.distinct
                 stats["transitions"] += r.generated
                 stats["runs"] += 1
